@@ -227,6 +227,14 @@ def rule_opt(ctx: Ctx) -> RuleResult:
             if row["sto_opt"]:
                 accepted |= {f"{stored}.type == {v}", f"{v} == {stored}.type"}
             ok = any(t in accepted for t in true_eq)
+            # membership in a display of exactly the accepted operands: `v in (stored, stored.type)` is `stored == v or stored.type == v`
+            for t, tv in row["facts"]:
+                if tv and t.startswith(f"{v} in (") and t.endswith(")"):
+                    items = [x.strip() for x in t[len(v) + 5:-1].split(",") if x.strip()]
+                    if items and all(f"{x} == {v}" in accepted for x in items):
+                        ok = True
+                        true_eq = true_eq + [t]
+                        accepted = accepted | {t}
             rr.ob(f.relpath, f.qualname, f"keep stored: {row['path'].describe()[:100]}",
                   "the stored type is kept without merging only when the incoming type equals it (or equals the content of "
                   "the stored Optional)", DISCHARGED if ok else VIOLATED,
